@@ -298,6 +298,17 @@ def prove(ctx, prop_file, extra_targets=()):
         axioms |= set(a)
         closed += c
     res.update(ok=True, discharged=len(names), axioms=sorted(axioms), closed=closed)
+    if ctx.tier == "thorough":
+        # independent re-check of the compiled files and of everything they depend on
+        mods = ["Inkfem." + f[:-2].replace("/", ".") for f in files]
+        with Lock():
+            rc, out = sh(["timeout", "2400", "coqchk", "-silent", "-o", "-Q", ".", "Inkfem"] + mods, cwd=COQ, timeout=2500)
+        if rc != 0:
+            res.update(ok=False, stage="coqchk", log=out[-4000:], failed_at="coqchk")
+            return res
+        ax = re.findall(r"^\s{4}(\S+)\s*$", out.split("* Axioms:", 1)[1].split("* Constants", 1)[0], re.M) if "* Axioms:" in out else []
+        res["coqchk_axioms"] = ax
+        ctx.log("coqchk: compiled theorem files re-checked; axioms of the loaded libraries: %s" % (", ".join(a.split(".")[-1] for a in ax) or "none"))
     return res
 
 
@@ -343,6 +354,8 @@ def standard_trusted_base(res):
         tb.append("axioms reported by Print Assumptions (standard library only): " + ", ".join(res["axioms"]))
     else:
         tb.append("Print Assumptions: every theorem closed under the global context")
+    if res.get("coqchk_axioms") is not None:
+        tb.append("coqchk -o (independent checker) on the compiled theorem files: axioms of every loaded library: " + (", ".join(res["coqchk_axioms"]) or "none"))
     tb.append("translator harness/cmd/translate (Go source -> coq/Gen/*.v), cross-evaluated against the Go functions each run")
     tb.append("correspondence harness harness/cmd/dump + tools/*.py (float64 printed shortest-round-trip, read back exactly)")
     return tb
